@@ -27,6 +27,9 @@ from dataclasses import dataclass, field, InitVar
 from typing import List, Optional
 from apischema.fields import with_fields_set
 from apischema.metadata import default_as_set
+from typing import Generic, TypeVar
+T = TypeVar("T")
+_M = object()
 """
 
 
@@ -45,6 +48,7 @@ class Shape:
     source: str
     fields: Tuple[F, ...]  # in __init__ order for the init ones
     note: str = ""
+    via: Tuple[str, ...] = ()  # further type expressions through which the class is (de)serialized (parametrised aliases)
 
 
 SHAPES: List[Shape] = [
@@ -121,6 +125,85 @@ class KwOnly:
 """,
         (F("a", "req"), F("k", "opt_kw", sample=6, default=0), F("b", "opt", sample=2), F("iv", "initvar_opt", sample=4), F("c", "opt", sample=3, default=0), F("e", "init_false", default=5)),
         "keyword-only field and InitVar declared before other init fields",
+    ),
+    Shape(
+        "GenBox",
+        """
+@with_fields_set
+@dataclass
+class GenBox(Generic[T]):
+    a: T
+    b: Optional[T] = None
+    c: int = field(default=0, metadata=default_as_set)
+    d: List[T] = field(default_factory=list)
+""",
+        (F("a", "req"), F("b", "opt", sample=2), F("c", "opt", True, sample=3, default=0), F("d", "opt", sample=[1], default=[])),
+        "generic with_fields_set dataclass, also observed through the parametrised alias GenBox[int]",
+        via=("GenBox[int]",),
+    ),
+    Shape(
+        "InitBefore",
+        """
+@with_fields_set
+@dataclass
+class DBase4:
+    a: int
+    b: Optional[int] = None
+
+@dataclass
+class InitBefore(DBase4):
+    t: int = 0
+    u: Optional[int] = None
+    def __init__(self, a, t=_M, u=_M, **kwargs):
+        if t is not _M:
+            self.t = t              # assigned before the inherited (wrapped) __init__
+        super().__init__(a, **kwargs)
+        if u is not _M:
+            self.u = u              # assigned after it
+""",
+        (F("a", "req"), F("t", "opt", sample=3, default=0), F("u", "opt", sample=4), F("b", "opt_kw", sample=2)),
+        "undecorated subclass overriding __init__: assigns own fields before / after calling super().__init__",
+    ),
+    Shape(
+        "InitBeforeDecorated",
+        """
+@with_fields_set
+@dataclass
+class DBase5:
+    a: int
+    b: Optional[int] = field(default=None, metadata=default_as_set)
+
+@with_fields_set
+@dataclass
+class InitBeforeDecorated(DBase5):
+    t: int = 0
+    e: int = field(init=False, default=8)
+    def __init__(self, a, t=_M, **kwargs):
+        if t is not _M:
+            self.t = t
+        super().__init__(a, **kwargs)
+""",
+        (F("a", "req"), F("t", "opt", sample=3, default=0), F("b", "opt_kw", True, sample=2), F("e", "init_false", default=8)),
+        "decorated subclass overriding __init__ and assigning an own field before super().__init__",
+    ),
+    Shape(
+        "OwnInit",
+        """
+@with_fields_set
+@dataclass
+class OwnInit:
+    a: int
+    b: Optional[int] = None
+    c: int = 0
+    def __init__(self, a, b=_M, c=_M):
+        self.a = a
+        if b is not _M:
+            self.b = b
+        if c is not _M:
+            self.c = c
+""",
+        (F("a", "req"), F("b", "opt", sample=2), F("c", "opt", sample=3, default=0)),
+        "decorated dataclass with a hand-written __init__",
     ),
     Shape(
         "FromUndecorated",
@@ -270,10 +353,10 @@ def run(report, tier: str, seed: int, log_name: str = "fields_set_vs_model"):
     n_sampled = 400 if tier == "quick" else 4000
     log = report.driver(
         log_name,
-        bound=f"{len(SHAPES)} with_fields_set dataclass shapes (plain, default_as_set, init=False + __post_init__, InitVar, inheritance from an undecorated class, plain / @dataclass / decorated subclasses of a decorated class, inherited __post_init__) x every subset of optional constructor arguments / data keys (constructor and deserialize) x every sequence of set_fields / unset_fields / attribute assignment / apischema.dataclasses.replace (one or two fields, overwrite, no field) of length <= {exhaustive_len} from every initial subset of <= 1 optional argument and from the full one, plus {n_sampled} seeded random sequences of length {sampled_len} per shape",
+        bound=f"{len(SHAPES)} with_fields_set dataclass shapes (plain, default_as_set, init=False + __post_init__, InitVar, keyword-only, generic class also used through a parametrised alias, inheritance from an undecorated class, plain / @dataclass / decorated subclasses of a decorated class, inherited __post_init__, subclasses overriding __init__ which assign fields before / after super().__init__, hand-written __init__) x every subset of optional constructor arguments / data keys (constructor and deserialize) x every sequence of set_fields / unset_fields / attribute assignment / apischema.dataclasses.replace (one or two fields, overwrite, no field) of length <= {exhaustive_len} from every initial subset of <= 1 optional argument and from the full one, plus {n_sampled} seeded random sequences of length {sampled_len} per shape",
     )
     log.rule(
-        "case = (class shape, how built, arguments / keys given, operation sequence); after the construction and after every operation: fields_set(obj) equals the model set (given fields + default_as_set + init=False; assignment / set_fields add; unset_fields removes; overwrite replaces; replace = old set + changed fields on a new object, the old object untouched); is_set agrees with fields_set; the keys of serialize(obj) are exactly the set fields and those of serialize(obj, exclude_unset=False) all the fields, with the attribute values (also combined with exclude_none=True: then without the None-valued fields). Distinct by the whole tuple; non-trivial when at least one optional field is unset at some point"
+        "case = (class shape, how built, arguments / keys given, operation sequence); after the construction and after every operation: fields_set(obj) equals the model set (given fields + default_as_set + init=False; assignment / set_fields add; unset_fields removes; overwrite replaces; replace = old set + changed fields on a new object, the old object untouched); is_set agrees with fields_set; the keys of serialize(T, obj) -- T the class, a parametrised alias of it, List[T] around it, or no type -- are exactly the set fields and those of serialize(obj, exclude_unset=False) all the fields, with the attribute values (also combined with exclude_none=True: then without the None-valued fields). Distinct by the whole tuple; non-trivial when at least one optional field is unset at some point"
     )
     mod_name = f"verif_fields_set_{seed}_{id(report) & 0xFFFF}"
     module = pytypes.ModuleType(mod_name)
@@ -294,6 +377,14 @@ def run(report, tier: str, seed: int, log_name: str = "fields_set_vs_model"):
 
 
 def _run_shape(report, log, sh: Shape, cls, tier, rng, exhaustive_len, sampled_len, n_sampled, deserialize, serialize, replace, fields_set, is_set, set_fields, unset_fields):
+    import typing
+
+    ns = sys.modules[cls.__module__].__dict__
+    aliases = {expr: eval(expr, ns) for expr in sh.via}
+    # further observation paths of the same object: parametrised aliases, a list of the class, no type at all
+    paths: List[Tuple[str, Any]] = [(expr, tp) for expr, tp in aliases.items()]
+    paths += [(f"List[{expr}]", typing.List[tp]) for expr, tp in [(sh.name, cls)] + list(aliases.items())]
+    paths.append(("untyped", None))
     by_name = {f.name: f for f in sh.fields}
     rf = real_fields(sh)
     rf_names = [f.name for f in rf]
@@ -315,7 +406,13 @@ def _run_shape(report, log, sh: Shape, cls, tier, rng, exhaustive_len, sampled_l
                 else:
                     break
             return cls(*[vals[n] for n in lead], **{n: v for n, v in vals.items() if n not in lead})
+        if how.startswith("deserialize:"):
+            return deserialize(aliases[how.split(":", 1)[1]], dict(vals))
         return deserialize(cls, dict(vals))
+
+    def well_typed(name, k):
+        """a value of the field's type derived from the integer k"""
+        return [k] if isinstance(by_name[name].sample, list) else k
 
     def fail(kind, how, given, seq, step, summary, observed, expected):
         log.fail(
@@ -359,6 +456,22 @@ def _run_shape(report, log, sh: Shape, cls, tier, rng, exhaustive_len, sampled_l
                 fail("serialize", how, given, seq, step, f"exclude_unset={xu}:extra={','.join(sorted((keys or set()) - set(expect)))}:missing={','.join(sorted(set(expect) - (keys or set())))}", data, expect)
             elif any(data[n] != getattr(obj, n) for n in expect):
                 fail("serialize", how, given, seq, step, f"exclude_unset={xu}:values", data, {n: getattr(obj, n) for n in expect})
+        for pname, tp in paths:
+            for xu, kw, expect in (("True", {}, [n for n in rf_names if n in model]), ("False", {"exclude_unset": False}, rf_names)):
+                try:
+                    if tp is None:
+                        data = serialize(obj, **kw)
+                    elif pname.startswith("List["):
+                        data = serialize(tp, [obj], **kw)[0]
+                    else:
+                        data = serialize(tp, obj, **kw)
+                except Exception as e:
+                    fail("serialize", how, given, seq, step, f"via={pname}:exclude_unset={xu}:raised={type(e).__name__}", repr(e), expect)
+                    continue
+                want = {n: getattr(obj, n) for n in expect}
+                if data != want:
+                    keys = set(data) if isinstance(data, dict) else set()
+                    fail("serialize", how, given, seq, step, f"via={pname}:exclude_unset={xu}:extra={','.join(sorted(keys - set(expect)))}:missing={','.join(sorted(set(expect) - keys))}", data, want)
         return model
 
     def play(how, given, seq):
@@ -387,10 +500,10 @@ def _run_shape(report, log, sh: Shape, cls, tier, rng, exhaustive_len, sampled_l
                     model = model - set(names)
                 elif kind == "assign":
                     for n in names:
-                        setattr(obj, n, 11)
+                        setattr(obj, n, well_typed(n, 11))
                     model = model | set(names)
                 elif kind == "replace":
-                    changes = {n: 21 for n in names}
+                    changes = {n: well_typed(n, 21) for n in names}
                     extra = {f.name: f.sample for f in initvar_req}  # dataclasses.replace requires them
                     before = (set(fields_set(obj)), {n: getattr(obj, n) for n in rf_names})
                     new = replace(obj, **changes, **extra)
@@ -399,7 +512,7 @@ def _run_shape(report, log, sh: Shape, cls, tier, rng, exhaustive_len, sampled_l
                     if type(new) is not type(obj):
                         fail("replace-class", how, given, done, kind, "wrong class", type(new).__name__, type(obj).__name__)
                     for n in names:
-                        if getattr(new, n) != 21:
+                        if getattr(new, n) != well_typed(n, 21):
                             fail("replace-value", how, given, done, kind, f"field {n} not replaced", getattr(new, n), 21)
                     for f in sh.fields:
                         if f.kind in ("req", "opt", "opt_kw") and f.name not in names and getattr(new, f.name) != before[1][f.name]:
@@ -418,11 +531,13 @@ def _run_shape(report, log, sh: Shape, cls, tier, rng, exhaustive_len, sampled_l
     subs = subsets(sh, tier)
     # 1. every subset, built each way, no operation and every single operation
     for given in subs:
-        for how in ("constructor", "positional", "deserialize"):
+        for how in ("constructor", "positional", "deserialize") + tuple(f"deserialize:{e}" for e in aliases):
             play(how, given, ())
         for op in alphabet:
             play("constructor", given, (op,))
             play("deserialize", given, (op,))
+            for e in aliases:
+                play(f"deserialize:{e}", given, (op,))
     # 2. exhaustive sequences from the small initial states and the full one
     req_only = subs[0]
     starts = [s for s in subs if len(s) <= len(req_only) + 1] + [subs[-1]]
@@ -434,4 +549,4 @@ def _run_shape(report, log, sh: Shape, cls, tier, rng, exhaustive_len, sampled_l
     for _ in range(n_sampled):
         given = rng.choice(subs)
         seq = tuple(rng.choice(alphabet) for _ in range(sampled_len))
-        play(rng.choice(("constructor", "deserialize")), given, seq)
+        play(rng.choice(("constructor", "deserialize") + tuple(f"deserialize:{e}" for e in aliases)), given, seq)
